@@ -62,6 +62,10 @@ func (ex *Exec) call(c *ssa.Call) {
 		r := env.pureCall(callee, args, fv, ex.st, ex.entry, 1, c.Type())
 		ex.reportEnvErrs("call " + callee.String())
 		ex.setResult(c, r)
+		if !ex.g.createsInvValue(callee, 0) {
+			// the function only passes existing values on: they satisfy their invariants
+			ex.rely(ex.vals[c], c.Type())
+		}
 		return
 	}
 	if cc != nil {
@@ -576,6 +580,10 @@ func (ex *Exec) staticHeapVars(addr ssa.Value, out map[string]bool, seen map[ssa
 	seen[addr] = true
 	switch a := addr.(type) {
 	case *ssa.FieldAddr:
+		if root := localStructRoot(a); root != nil {
+			out[ex.locals[root]] = true
+			return
+		}
 		st := deref(a.X.Type())
 		s, _ := isStruct(st)
 		ft := s.Field(a.Field).Type()
@@ -610,7 +618,9 @@ func (ex *Exec) staticHeapVars(addr ssa.Value, out map[string]bool, seen map[ssa
 		return
 	case *ssa.Alloc:
 		t := deref(a.Type())
-		if _, ok := isStruct(t); ok {
+		if _, ok := isStruct(t); ok && !a.Heap {
+			out[ex.locals[a]] = true
+		} else if _, ok := isStruct(t); ok {
 			e.structHeaps(t, out)
 		} else if at, ok := t.Underlying().(*types.Array); ok {
 			if _, ok := isStruct(at.Elem()); ok {
@@ -734,7 +744,9 @@ func (ex *Exec) modSet(blocks map[*ssa.BasicBlock]bool) (map[string]bool, bool) 
 				ex.staticHeapVars(in.Addr, out, map[ssa.Value]bool{})
 			case *ssa.Alloc:
 				t := deref(in.Type())
-				if _, ok := isStruct(t); ok {
+				if _, ok := isStruct(t); ok && !in.Heap {
+					out[ex.locals[in]] = true
+				} else if _, ok := isStruct(t); ok {
 					e.structHeaps(t, out)
 					out["alloc"] = true
 				} else if at, ok := t.Underlying().(*types.Array); ok {
@@ -1032,4 +1044,46 @@ func (ex *Exec) callSiteOrdinal(c *ssa.Call, name string) int {
 		}
 	}
 	return 0
+}
+
+// localStructRoot: fa addresses a field (possibly nested) of a non-escaping struct local.
+func localStructRoot(fa *ssa.FieldAddr) *ssa.Alloc {
+	var x ssa.Value = fa.X
+	for {
+		switch v := x.(type) {
+		case *ssa.Alloc:
+			if _, ok := isStruct(deref(v.Type())); ok && !v.Heap {
+				return v
+			}
+			return nil
+		case *ssa.FieldAddr:
+			x = v.X
+		default:
+			return nil
+		}
+	}
+}
+
+// createsInvValue: does fn (or a static callee) box a value of a type with a creation invariant?
+func (g *Gen) createsInvValue(fn *ssa.Function, depth int) bool {
+	if depth > 4 {
+		return true
+	}
+	for _, b := range fn.Blocks {
+		for _, in := range b.Instrs {
+			switch in := in.(type) {
+			case *ssa.MakeInterface:
+				if g.createInv[typeKey(in.X.Type())] != nil {
+					return true
+				}
+			case *ssa.Call:
+				if cal := in.Common().StaticCallee(); cal != nil && len(cal.Blocks) > 0 && cal != fn {
+					if g.createsInvValue(cal, depth+1) {
+						return true
+					}
+				}
+			}
+		}
+	}
+	return false
 }
